@@ -29,6 +29,10 @@ CHECKS = {
    technique="multi-run trace validation: real runs of the same bytes under enumerated/sampled delivery schedules are checked by TLC against Trace_Runs.tla (result sequence is a function of content); the reader's own buffer-aliasing discipline is model-checked in Chunks.tla for every refill pattern",
    text="For every corpus input (all 7 formats, 3 encodings, BOM, generated multi-row inputs that straddle bufio's window) the golden whole-buffer run is compared by TLC with 1-byte delivery, data-with-EOF, every single split point (exhaustive up to 700/4200 bytes) and random chunkings with empty reads; TLC also explores every refill pattern of the fixedlength2 alias-then-copy model. Exploration: schedules beyond single split points are sampled.",
    note="Trusted: TLC, the chunking reader of the harness; stdlib/go-corelib layers are axiomatised (not modelled). JSON reader line numbers in messages are masked (documented as rough)."),
+ "C16": dict(cat="fault_enumeration", design="5/C16",
+   technique="fault enumeration: real runs with the io.Reader failing at every byte position (two failure modes x two delivery schedules) are recorded and validated by TLC against the Fault action of Trace_Runs.tla (bounded reads to a sticky fatal error, prefix equality with the fault-free run)",
+   text="Every fault position of every small corpus input (all formats; sampled positions for large inputs) is executed on the real Transform; TLC accepts a faulted run only if it ends within fault-free-length+2 Reads in a non-continuable, sticky error (or in EOF with nothing missing) and every earlier result except possibly the last equals the fault-free run's. Calls run under a 2 s watchdog; hangs and panics are violations.",
+   note="Trusted: TLC, the fault-injecting reader. Error identity for stickiness is (value or text). Faults are persistent from the first failure on (a reader that recovers is outside the property)."),
 }
 
 def main():
